@@ -500,5 +500,34 @@ def gen_hash():
     ])
 
 
+# ---- Hash (C02), integer key types: width/signedness of int8..uint64 as Base.hpp declares them, hash(T) = (usize)v ----
+
+def read_hash_keys(root=None):
+    """For each integer key type T the harness instantiates the containers with: the builtin type its typedef in
+    nstd/Base.hpp resolves to (bits, signed; every conditional branch of the header must agree) and the body of the
+    overload `inline usize hash(T v)`, which must be exactly `return (usize)v;` - the model computes that conversion as
+    "the value of v modulo 2^64" (hash_cast), usize being the 64-bit type of the x86-64 build (asserted by the harness)."""
+    base = Source('include/nstd/Base.hpp', root)
+    types = {}
+    for ty in ('int8', 'uint8', 'int16', 'uint16', 'int32', 'uint32', 'int64', 'uint64'):
+        a, b = find_function(base, r'\binline\s+usize\s+hash', [ty], 'hash(%s)' % ty)
+        if not re.fullmatch(r'\{\s*return\s*\(\s*usize\s*\)\s*v\s*;\s*\}', base.clean[a:b + 1]):
+            raise TieBroken('hash(%s): body is not  return (usize)v;  but %r (the model converts the value to 64 bits unsigned)' % (ty, base.clean[a:b + 1]))
+        bits, signed = resolve_type(ty, [base], 'key type %s' % ty)
+        if bits > 64:
+            raise TieBroken('key type %s is wider than usize' % ty)
+        types[ty] = (bits, signed)
+    return {'header': base.rel, 'types': types}
+
+
+def gen_hash_keys():
+    t = read_hash_keys()
+    defs = []
+    for ty, (bits, signed) in t['types'].items():
+        defs.append(('gen_%s_bits' % ty, 'Z', str(bits)))
+        defs.append(('gen_%s_signed' % ty, 'bool', 'true' if signed else 'false'))
+    return write_v('Hash', 'Gen_HashKeys.v', t['header'], defs)
+
+
 if __name__ == '__main__':
     print(globals()['gen_' + sys.argv[1]]())
